@@ -235,7 +235,11 @@ Lemma wrapper_accepts hs cl w fp s :
   wrapper hs cl (Some w) fp = Ok s ->
   hs = Ok s /\ exists c, (if cl then s_server_chain s else s_client_chain s) = Some c /\ fp c = w.
 Proof.
-  unfold wrapper. intros H. destruct hs as [s0|e]; cbn [bind] in H; [|discriminate H].
+  unfold wrapper. intros H. destruct hs as [s0|e].
+  2:{ exfalso. unfold map_exn in H. destruct e; try discriminate H.
+      destruct (code =? X_DecryptionFailed); [discriminate H|].
+      destruct (code =? X_IllegalParameter); discriminate H. }
+  cbn [map_exn bind] in H.
   destruct (if cl then s_server_chain s0 else s_client_chain s0) as [c|] eqn:C; [|discriminate H].
   destruct (list_eqb (fp c) w) eqn:E; [|discriminate H].
   injection H as H. subst s0. split; [reflexivity|]. exists c. split; [exact C|].
@@ -247,14 +251,19 @@ Lemma wrapper_mismatch (hs : res Session) (cl : bool) (w : list Z) (fp : list Z 
   (forall c, (if cl then s_server_chain s else s_client_chain s) = Some c -> fp c <> w) ->
   wrapper hs cl (Some w) fp = Err (OtherExn X_AuthenticationError).
 Proof.
-  intros -> Hne. unfold wrapper. cbn [bind].
+  intros -> Hne. unfold wrapper. cbn [map_exn bind].
   destruct (if cl then s_server_chain s else s_client_chain s) as [c|] eqn:C; [|reflexivity].
   destruct (list_eqb (fp c) w) eqn:E; [|reflexivity].
   apply list_eqb_spec in E. exfalso. exact (Hne c eq_refl E).
 Qed.
 
-Lemma wrapper_failed_handshake e cl w fp : wrapper (Err e) cl w fp = Err e.
-Proof. reflexivity. Qed.
+Lemma wrapper_failed_handshake (e : exn) (cl : bool) (w : option (list Z)) (fp : list Z -> list Z) :
+  exists e', wrapper (Err e) cl w fp = Err e'.
+Proof.
+  unfold wrapper, map_exn. destruct e; try (eexists; reflexivity).
+  destruct (code =? X_DecryptionFailed); [eexists; reflexivity|].
+  destruct (code =? X_IllegalParameter); eexists; reflexivity.
+Qed.
 
 (* ---- the former refutation witnesses (held before fixes 61d7222 / 11c0ed7) are now rejected -- *)
 Lemma former_witness_scheme_not_offered_rejected :
